@@ -308,3 +308,53 @@ func (c *Ctx) callsMetaWriter(call ssa.CallInstruction) bool {
 	}
 	return false
 }
+
+// deepOrigins is origins made interprocedural for thin wrappers: a parameter
+// is followed to the arguments of the static call sites of its function, the
+// result of a static call to a library function to the values that function
+// returns (result i of a tuple through its Extract). Depth-bounded; values
+// that cannot be followed are returned as they are.
+func (c *Ctx) deepOrigins(v ssa.Value) []ssa.Value {
+	seen := map[ssa.Value]bool{}
+	var out []ssa.Value
+	var walk func(v ssa.Value, depth int)
+	walk = func(v ssa.Value, depth int) {
+		for _, og := range c.paramSources(v, 0) {
+			if seen[og] {
+				continue
+			}
+			seen[og] = true
+			var call *ssa.Call
+			idx := 0
+			switch x := og.(type) {
+			case *ssa.Call:
+				call = x
+			case *ssa.Extract:
+				if cl, ok := x.Tuple.(*ssa.Call); ok {
+					call, idx = cl, x.Index
+				}
+			}
+			if call == nil || depth > 3 {
+				out = append(out, og)
+				continue
+			}
+			g := staticCallee(call)
+			if g == nil || !c.IsLib(g) || len(g.Blocks) == 0 {
+				out = append(out, og)
+				continue
+			}
+			n := 0
+			for _, ret := range returnsOf(g) {
+				if rv, ok := returnedValue(ret, idx); ok {
+					n++
+					walk(rv, depth+1)
+				}
+			}
+			if n == 0 {
+				out = append(out, og)
+			}
+		}
+	}
+	walk(v, 0)
+	return out
+}
